@@ -42,6 +42,7 @@ pub fn run_case(h: &History, ctx: &mut Ctx) -> CaseResult {
             ctx.count("thin_exempt", out.thin_exempt as u64);
         }
     }
+    ctx.class_if(st.t.tree.depth() > 64, "path_longer_than_64_edges");
     ctx.count("ops_executed", executed);
     ctx.count("final_nodes", st.t.len() as u64);
     ctx.class_if(!st.tracking, "reference_dropped");
@@ -65,6 +66,31 @@ pub fn is_total(st: &HState) -> bool {
     })
 }
 
+/// A one-dimensional network of 66..96 layers `x -> relu(x - c_i)` distilled layer by layer with pruning: the
+/// tree becomes a chain whose deepest path has one decision per layer, i.e. more than 64 edges.  Nothing else in
+/// the generators produces AffTree paths that long (depth <= 6 plus <= 16 operations), and code that walks or
+/// buffers a root-to-node path is exercised only there.  The history ends with a few ordinary operations.
+fn deep_history() -> BoxedStrategy<History> {
+    use crate::gen::{Aff, Mat};
+    use crate::schema::SchemaSpec;
+    (66usize..=96, proptest::collection::vec(prop_oneof![Just(1.0), Just(0.5), Just(2.0), Just(0.25)], 4), proptest::collection::vec(hop(W_ALL), 0..3), any::<bool>())
+        .prop_map(|(layers, steps, tail, prune_all)| {
+            let mut ops = Vec::new();
+            for i in 0..layers {
+                let c = steps[i % steps.len()];
+                let a = Aff { mat: Mat { rows: vec![vec![1.0, 0.0, 0.0], vec![0.0; 3], vec![0.0; 3]], cols: 3 }, bias: vec![-c, 0.0, 0.0] };
+                ops.push(HOp::ApplyFunc { a, out: 0 });
+                ops.push(HOp::Compose { prune: true, g: GSpec::Schema(SchemaSpec::ReLU { row: 0 }), out: 0 });
+                if !prune_all && i % 8 == 7 {
+                    ops.push(HOp::Eliminate);
+                }
+            }
+            ops.extend(tail);
+            History { in_dim: 1, out0: 0, ctor: Ctor::New, ops, points: vec![crate::gen::PointSpec::Anchor(0)], anchors: vec![vec![0.0, 0.0, 0.0]] }
+        })
+        .boxed()
+}
+
 pub const W_ALL: OpWeights = OpWeights { apply: 3, compose_unpruned: 4, compose_pruned: 4, eliminate: 4, reduce: 2, arith_tree: 3, arith_aff: 2 };
 
 impl Property for C04 {
@@ -73,7 +99,7 @@ impl Property for C04 {
         "C04"
     }
     fn rule(&self) -> String {
-        "histories: constructor in {new, from_aff, from_poly with/without else, every schema, generated tree (total/partial)} followed by <= 8 (thorough 16) operations over {apply_func, compose<false>, compose<true> (schema or generated tree, total/partial), infeasible_elimination, reduce, tree+tree, tree-tree (4 ownership variants), neg, tree+-aff, aff+-tree} with arguments made dimension-compatible with the model's tracked output dimension; after every step the C04 invariant (column counts, common terminal output dimension, rows allowed by K, leaf <=> no children, link invariants) is checked on the raw arena, every step must return without panic, and while the reference function is tracked the function is compared too. Non-trivial = a pruning op after an unpruned composition or on a partial tree/operand AND >= 3 structure-changing ops; distinct = distinct serialised histories".into()
+        "histories: constructor in {new, from_aff, from_poly with/without else, every schema, generated tree (total/partial)} followed by <= 8 (thorough 16) operations over {apply_func, compose<false>, compose<true> (schema or generated tree, total/partial), infeasible_elimination, reduce, tree+tree, tree-tree (4 ownership variants), neg, tree+-aff, aff+-tree} with arguments made dimension-compatible with the model's tracked output dimension; 1 case in 1500 is a one-dimensional network of 66-96 pruned ReLU layers (paths longer than 64 edges); after every step the C04 invariant (column counts, common terminal output dimension, rows allowed by K, leaf <=> no children, link invariants) is checked on the raw arena, every step must return without panic, and while the reference function is tracked the function is compared too. Non-trivial = a pruning op after an unpruned composition or on a partial tree/operand AND >= 3 structure-changing ops; distinct = distinct serialised histories".into()
     }
     fn assumptions(&self) -> Vec<String> {
         vec![
@@ -85,7 +111,7 @@ impl Property for C04 {
         tier.pick(15000, 300_000)
     }
     fn strategy(&self, tier: Tier) -> BoxedStrategy<History> {
-        history(W_ALL, tier.pick(8, 16))
+        prop_oneof![1499 => history(W_ALL, tier.pick(8, 16)), 1 => deep_history()].boxed()
     }
     fn run(&self, case: &History, ctx: &mut Ctx) -> CaseResult {
         run_case(case, ctx)
